@@ -358,6 +358,28 @@ def run(tier, seed):
             jobs.append({"kind": "c19", "seed": seed, "run": f"spelling-{tid}-{order}",
                          "env": pool[0], "params": DEFAULT_PARAMS, "steps": steps,
                          "ref": ref_for(ref, steps), "timeout": 900})
+    # the same request with other target index names (slots exchanged, crossed, chained,
+    # disjoint, permuted within a slot) before / after the base request on shared objects:
+    # a later request must not be answered from an earlier one by a renaming that is only
+    # right for some name patterns
+    for base, variants in cat.NAMEVAR.items():
+        ids = [base] + [v for v in variants if v in ref]
+        if base not in ref:
+            continue
+        for v in ids[1:]:
+            for x, y in ((base, v), (v, base)):
+                steps = [{"op": "req", "t": x}, {"op": "req", "t": y}, {"op": "req", "t": x}]
+                jobs.append({"kind": "c19", "seed": seed, "run": f"namevar-{x}-{y}",
+                             "env": pool[0], "params": DEFAULT_PARAMS, "steps": steps,
+                             "ref": ref_for(ref, steps), "timeout": 900})
+        if len(ids) > 2:
+            order = ids[1:] + [base]
+            rng.shuffle(order)
+            steps = [{"op": "req", "t": base}] + [{"op": "req", "t": i, "form": rng.choice([0, 5])}
+                                                    for i in order]
+            jobs.append({"kind": "c19", "seed": seed, "run": f"namevar-all-{base}",
+                         "env": pool[0], "params": DEFAULT_PARAMS, "steps": steps,
+                         "ref": ref_for(ref, steps), "timeout": 1200})
     for a, b in TWINS:
         if a not in ref or b not in ref:
             continue
